@@ -675,6 +675,33 @@ impl World {
             }
         }
     }
+    /// move the whole balance of the (never trading) "stranger" wallet into the insurance fund; used to
+    /// build the rich-fund twin of a pre-state. Returns the amount moved.
+    pub fn top_up_ifund(&mut self) -> u128 {
+        let amt = self.bal("stranger");
+        if amt == 0 {
+            return 0;
+        }
+        let ifund = self.ifund.clone();
+        match self.token.clone() {
+            Some(t) => {
+                self.app
+                    .execute_contract(
+                        Addr::unchecked("stranger"),
+                        t,
+                        &cw20::Cw20ExecuteMsg::Transfer { recipient: ifund.to_string(), amount: Uint128::new(amt) },
+                        &[],
+                    )
+                    .unwrap();
+            }
+            None => {
+                self.app
+                    .send_tokens(Addr::unchecked("stranger"), ifund, &[Coin::new(amt, DENOM)])
+                    .unwrap();
+            }
+        }
+        amt
+    }
     pub fn total_supply(&self) -> Option<u128> {
         self.token.as_ref().map(|t| {
             let r: cw20::TokenInfoResponse = self
